@@ -11,6 +11,7 @@ def generate(T, tier):
     hs = [{"name": "c12::clear_%s" % k, "group": "stub", "tier": "quick" if k in ("unsupported", "empty") else "thorough",
            "bounds": "L1: every 1029-byte builder state (data[0]==0xD3, has_run) x %s: state after the call == fresh state" % d}
           for k, d in (("empty", "Message::Empty"), ("corrupt", "Message::Corrupt"), ("unsupported", "MsgNotSupported(any u16)"))]
+    hs.append({"name": "c12::fresh_state", "group": "stub", "tier": "quick", "bounds": "MessageBuilder::new() is [0xD3, 0, 0, ...] with the used-flag down"})
     byvar = {m["module"]: m for m in T.messages}
     # smallest message that can fail part-way (contains a biased field => OutOfRange after some fields were written)
     cands = []
